@@ -896,6 +896,7 @@ void TasmanianSparseGrid::setAnisotropicRefinement(TypeDepth type, int min_growt
     if (outs == 0) throw std::runtime_error("ERROR: calling setAnisotropicRefinement() for a grid that has no outputs");
     if (base->getNumLoaded() == 0) throw std::runtime_error("ERROR: calling setAnisotropicRefinement() for a grid with no loaded values");
     if ((output < -1) || (output >= outs)) throw std::invalid_argument("ERROR: calling setAnisotropicRefinement() with invalid output");
+    if (isGlobal() and output == -1) throw std::invalid_argument("ERROR: calling setAnisotropicRefinement() for a Global grid requires a specific output");
     if ((!level_limits.empty()) && (level_limits.size() != (size_t) dims)) throw std::invalid_argument("ERROR: setAnisotropicRefinement() requires level_limits with either 0 or dimenions entries");
 
     if (isGlobal() and OneDimensionalMeta::isNonNested(get<GridGlobal>()->getRule())) // reject before the level limits are modified
@@ -924,6 +925,7 @@ void TasmanianSparseGrid::estimateAnisotropicCoefficients(TypeDepth type, int ou
     if (outs == 0) throw std::runtime_error("ERROR: calling estimateAnisotropicCoefficients() for a grid that has no outputs");
     if (base->getNumLoaded() == 0) throw std::runtime_error("ERROR: calling estimateAnisotropicCoefficients() for a grid with no loaded values");
     if ((output < -1) || (output >= outs)) throw std::invalid_argument("ERROR: calling estimateAnisotropicCoefficients() with invalid output");
+    if (isGlobal() and output == -1) throw std::invalid_argument("ERROR: calling estimateAnisotropicCoefficients() for a Global grid requires a specific output");
 
     if (isSequence()){
         get<GridSequence>()->estimateAnisotropicCoefficients(type, output, weights);
@@ -952,6 +954,7 @@ void TasmanianSparseGrid::setSurplusRefinement(double tolerance, int output, con
     if (outs == 0) throw std::runtime_error("ERROR: calling setSurplusRefinement() for a grid that has no outputs");
     if (base->getNumLoaded() == 0) throw std::runtime_error("ERROR: calling setSurplusRefinement() for a grid with no loaded values");
     if ((output < -1) || (output >= outs)) throw std::invalid_argument("ERROR: calling setSurplusRefinement() with invalid output");
+    if (isGlobal() and output == -1) throw std::invalid_argument("ERROR: calling setSurplusRefinement() for a Global grid requires a specific output");
     if (tolerance < 0.0) throw std::invalid_argument("ERROR: calling setSurplusRefinement() with invalid tolerance (must be non-negative)");
     if ((!level_limits.empty()) && (level_limits.size() != (size_t) dims)) throw std::invalid_argument("ERROR: setSurplusRefinement() requires level_limits with either 0 or dimenions entries");
 
@@ -1057,6 +1060,7 @@ std::vector<double> TasmanianSparseGrid::getCandidateConstructionPoints(TypeDept
     int outs = base->getNumOutputs();
     if (outs == 0) throw std::runtime_error("ERROR: calling getCandidateConstructionPoints() for a grid that has no outputs");
     if ((output < -1) || (output >= outs)) throw std::invalid_argument("ERROR: calling getCandidateConstructionPoints() with invalid output");
+    if (isGlobal() and output == -1) throw std::invalid_argument("ERROR: calling getCandidateConstructionPoints() for a Global grid requires a specific output");
 
     if (!level_limits.empty()) llimits = level_limits;
     std::vector<double> x;
